@@ -74,8 +74,7 @@ theorem pitchOf_replicate (e : Char × String × Int) (he : e ∈ kernNotes) (n 
   have hall := all_eq_replicate e.1 n
   simp only [kernNotes, List.mem_cons, List.not_mem_nil, or_false] at he
   rcases he with rfl | rfl | rfl | rfl | rfl | rfl | rfl | rfl | rfl | rfl | rfl | rfl | rfl | rfl <;>
-    simp [pitchOf, List.replicate_succ, lookupNote, kernNotes, List.length_replicate] at hall ⊢ <;>
-    simp [hall]
+    simp [pitchOf, List.replicate_succ, lookupNote, kernNotes, List.length_replicate] at hall ⊢
 
 theorem count_append (c : Char) (a b : List Char) : count c (a ++ b) = count c a + count c b := by
   simp [count, List.filter_append]
